@@ -22,7 +22,7 @@ RULE = (
     "Sub-check 'all_topologies' enumerates every labelled rooted topology for 3..6 taxa (thorough: all 1068; quick: all of n=3..5 and every 8th of n=6)."
 )
 ASSUMPTIONS = [
-    "agreement demanded to 1e-9 relative as the property states for branch lengths >= 1e-6 (explicit lengths are log-uniform in [1e-6, 10]); time trees can produce shorter branches, for which the tolerance is widened by the conditioning of P(t) in double precision (4e-16 / t per branch and column) and the case is labelled",
+    "agreement demanded to 1e-9 relative as the property states, plus the measured conditioning of the case: the change of the reference when every P(t) is perturbed by two ulps in the symmetrised basis (P_ij += 4.4e-16 sqrt(pi_j/pi_i)); cases where this slack exceeds 1e-9 |ref| (columns whose likelihood is ~1e-15: branches < 1e-6, frequencies / rates spanning > 3 orders of magnitude, invariant sites on nearly impossible columns) are labelled ill_conditioned and counted",
     "non-reversible models only on time trees and explicit-tensor unrooted trees (root placement is then part of the specification)",
     "LG / WAG / MG94: rate matrix taken from the model's q() (their values are C04's subject), everything else independent",
     "stop codons are not generated (not a state of the codon model; no documented meaning)",
@@ -66,42 +66,21 @@ def body(c):
     if v.size != 1 or not np.isfinite(v).all():
         return res.fail("nonfinite", {"value": v.tolist(), "reference": ref})
     v = float(v.reshape(-1)[0])
-    tol = 1e-9 * max(1.0, abs(ref)) + conditioning(c, dic)
+    slack = conditioning(c, dic)
+    if slack > 1e-9 * max(1.0, abs(ref)):
+        res.labels = res.labels + ("ill_conditioned",)
+    tol = 1e-9 * max(1.0, abs(ref)) + slack
     if abs(v - ref) > tol:
         return res.fail("mismatch", {"value": v, "reference": ref, "rel": abs(v - ref) / max(1.0, abs(ref)), "tol": tol})
     return res
 
 
 def conditioning(c, dic=None):
-    """absolute slack where an off-diagonal entry of P(t) is tiny: P_ij(t) ~ t q_ij computed by any
-    double-precision eigendecomposition carries an absolute error ~1e-16, i.e. a relative error
-    1e-16 / (t q_ij), which enters the site log-likelihood of every column that needs that change on that
-    branch.  The property's 1e-9 is promised for branch lengths >= 1e-6 with rates of order one (DESIGN C01
-    'B'); below t * min q_ij = 1e-6 the tolerance is widened accordingly (conservatively: smallest branch,
-    largest category rate, smallest positive off-diagonal rate) and the case is labelled."""
-    topo, names, dates, bl, h = phylo.tree_geometry(c)
-    pos = [x for x in bl.values() if x > 0]
-    if not pos:
-        return 0.0
-    rates, probs = phylo.site_categories(c["site"])
-    m = c["model"]
-    qmin = 1.0
-    if m["name"] not in ("LG", "WAG", "MG94"):
-        Q, pi = phylo.OL.q_model(m)
-        off = Q[~np.eye(len(pi), dtype=bool)]
-        off = off[off > 0]
-        qmin = float(off.min()) if off.size else 1.0
-    elif dic is not None:
-        sm = dic["subst"]
-        pi = sm.frequencies.detach().numpy().reshape(-1)
-        Q = phylo.OL.normalise(sm.q().detach().numpy().reshape(len(pi), len(pi)), pi)
-        off = Q[~np.eye(len(pi), dtype=bool)]
-        off = off[off > 0]
-        qmin = float(off.min()) if off.size else 1.0
-    b = min(pos) * float(max(rates)) * min(1.0, qmin)
-    if b >= 1e-6:
-        return 0.0
-    return len(c["cols"]) * 4e-16 * len(pos) / b
+    """absolute slack added to the property's 1e-9: see phylo.reference_slack (perturbation of every P(t)
+    by two ulps in the symmetrised basis).  Cases where it exceeds 1e-9 * |ref| are labelled ill-conditioned."""
+    if dic is None:
+        dic = phylo.build_like(c) if c["model"]["name"] in ("LG", "WAG", "MG94") else None
+    return phylo.reference_slack(c, dic)
 
 
 def audit_body(c):
